@@ -1,8 +1,11 @@
 package fsx
 
 import (
+	"io/fs"
 	"path"
 	"strings"
+
+	"github.com/avfs/avfs"
 )
 
 // resolve walks p (absolute, clean) over the snapshot, following symbolic
@@ -199,3 +202,14 @@ func Retarget(o Op, windows bool) Op {
 	}
 	return o
 }
+
+// WinView lets Snapshot walk a Windows-typed file system (volume C:) with /-paths.
+type WinView struct{ avfs.VFS }
+
+func wconv(p string) string { return Retarget(Op{P: p}, true).P }
+
+func (v WinView) Lstat(p string) (fs.FileInfo, error)     { return v.VFS.Lstat(wconv(p)) }
+func (v WinView) Stat(p string) (fs.FileInfo, error)      { return v.VFS.Stat(wconv(p)) }
+func (v WinView) ReadDir(p string) ([]fs.DirEntry, error) { return v.VFS.ReadDir(wconv(p)) }
+func (v WinView) ReadFile(p string) ([]byte, error)       { return v.VFS.ReadFile(wconv(p)) }
+func (v WinView) Readlink(p string) (string, error)       { return v.VFS.Readlink(wconv(p)) }
